@@ -44,9 +44,12 @@ def specFloor (n : Int) (r : String) : Option String :=
       else none
 
 def handle (s : S) : List String → S × String
+  | ["overlap", id, cap, oid, ocap] =>
+    (s, s!"specviol buffer {id} (capacity {cap}) shares memory with buffer {oid} (capacity {ocap}) while both are held: the capacity of a buffer is not its holder's alone")
   | ["conc", g, gets, double, short] =>
-    (s, if short != "0" then s!"specviol a concurrent Get returned a buffer smaller than requested ({short} times in {gets} Gets of mixed size classes)" else
-        if double == "0" then s!"ok {g} goroutines {gets} gets" else s!"specviol a buffer was handed to a second holder while the first still held it ({double} times in {gets} concurrent Gets)")
+    (s, if short != "0" then (if g == "1" then s!"specviol after the channel recycled a batch the pool returned a buffer smaller than requested ({short} of {gets} Gets)"
+         else s!"specviol a concurrent Get returned a buffer smaller than requested ({short} times in {gets} Gets of mixed size classes)") else
+        if double == "0" then s!"ok {g} goroutines {gets} gets" else s!"specviol a buffer was handed to a second holder while the first still held it ({double} times in {gets} Gets, {g} goroutine(s))")
   | ["pmath", "ceil", n, r] =>
     match i64 n, n.toInt? with
     | some v, some ni =>
